@@ -18,7 +18,7 @@ SOURCES = ['src/dtaidistance/dtw_ndim.py', 'src/dtaidistance/dtw.py', 'src/dtaid
 FUNCTIONS = ['dtw_ndim.distance, warping_paths, warping_path, distance_matrix, ub_euclidean', 'innerdistance.SquaredEuclideanNdim, EuclideanNdim',
              'util.SeriesContainer (list of 2-D arrays, 3-D array)', 'dd_dtw.c dtw_distance_ndim(_euclidean), dtw_warping_paths_ndim(_euclidean), ub_euclidean_ndim*',
              'dd_ed.c euclidean_distance_ndim*']
-BOUNDS = {'quick': {'d': '1..2 (C kernels also 3 at 2x2)', 'r,c': '1..3', 'window': 'None,1,2', 'penalty': 'None|symbolic', 'psi': 'None, 1', 'pruning / max_dist': 'r*c <= 4'},
+BOUNDS = {'quick': {'d': '1..2 (C kernels also 3 at 2x2)', 'r,c': '1..3', 'window': 'None,1,2', 'penalty': 'None|symbolic', 'psi': 'None, 1', 'pruning / max_dist': 'r*c <= 6'},
           'thorough': {'d': '1..4 (C: 1..3)', 'r,c': '1..4 (d <= 2), 1..2 (d >= 3)', 'window': 'all', 'penalty': 'None|symbolic', 'psi': 'None, 1', 'pruning / max_dist': 'r*c <= 9'}}
 OUTSIDE = ['typed memoryview / container handling of the Cython layer', 'floating point rounding', 'sizes above the bound']
 ASSUMPTIONS = ['oracle: spec_dtw with D[i][j] = sum_k SQ(a[i,k]-b[j,k]) (resp. its square root)', 'SQ/SQRT abstractions with lemmas; sat answers refined and replayed']
@@ -127,7 +127,7 @@ def run_task(cfg):
 
     r, c, inner = cfg['r'], cfg['c'], cfg['inner']
     innername = 'squared euclidean' if inner == 'sq' else 'euclidean'
-    forks = r * c <= (4 if tier == 'quick' else 9)
+    forks = r * c <= (6 if tier == 'quick' else 9)
     irmod = None
     if fam == 'ckern':
         from engine import irsym, ckern
